@@ -40,8 +40,61 @@ static T* make_target(const ClassAdapter<T>& A, int k) {
   return o;
 }
 
+// ---- replay (bin/vcheck replay): VERIF_REPLAY_TXT holds K class=, K next_op=, K load_target=, H <history entries>
+static std::map<std::string, std::string> RK; static std::vector<std::string> RH; static bool REPLAY = false; static int REPLAY_RC = 2;
+static void load_replay() {
+  const char* f = getenv("VERIF_REPLAY_TXT"); if (!f) return;
+  std::ifstream in(f); std::string line;
+  while (std::getline(in, line)) {
+    if (line.size() < 3) continue;
+    if (line[0] == 'K') { size_t e = line.find('='); RK[line.substr(2, e - 2)] = line.substr(e + 1); }
+    else if (line[0] == 'H') RH.push_back(line.substr(2));
+  }
+}
+template <class T>
+static bool parse_step(const ClassAdapter<T>& A, const std::string& txt, Step& st) {
+  for (size_t m = 0; m < A.muts.size(); ++m) {
+    if (!A.muts[m].binary) { if (A.muts[m].name == txt) { st.op = (int)m; st.operand = -1; return true; } continue; }
+    for (size_t k = 0; k < A.initials.size(); ++k) if (A.muts[m].name + " arg=" + A.initials[k].first == txt) { st.op = (int)m; st.operand = (int)k; return true; }
+  }
+  return false;
+}
+template <class T>
+static void replay_class(const ClassAdapter<T>& A) {
+  if (RK["class"] != A.name || RH.empty()) return;
+  Hist h; Step s0; s0.op = -1; s0.operand = -2;
+  for (size_t k = 0; k < A.initials.size(); ++k) if (A.initials[k].first == RH[0]) s0.op = (int)k;
+  if (s0.op < 0) { fprintf(stderr, "replay: unknown initial '%s'\n", RH[0].c_str()); return; }
+  h.push_back(s0);
+  for (size_t i = 1; i < RH.size(); ++i) { Step st; if (!parse_step(A, RH[i], st)) { fprintf(stderr, "replay: unknown step '%s'\n", RH[i].c_str()); return; } h.push_back(st); }
+  std::unique_ptr<T> o(build(A, h));
+  std::string t = A.dump(*o);
+  int tg = -1; std::string lt = RK["load_target"];
+  for (size_t k = 0; k < A.initials.size(); ++k) if (lt == "reused object: " + A.initials[k].first + " after its observers") tg = (int)k;
+  std::unique_ptr<T> L(make_target(A, tg));
+  bool okl = A.load(*L, t);
+  std::string t2 = A.dump(*L);
+  printf("class %s\nhistory %s\nload target: %s\n--- dump of the original ---\n%s--- ascii_load returned %s; dump of the loaded object ---\n%s--- %s; OK(original)=%d OK(loaded)=%d equal=%d\n",
+         A.name.c_str(), hist_text(A, h).c_str(), tg < 0 ? "fresh object" : lt.c_str(), t.c_str(), okl ? "true" : "false", t2.c_str(),
+         t == t2 ? "dumps identical" : ("DUMPS DIFFER: " + first_diff(t2, t)).c_str(), (int)A.ok(*o), (int)A.ok(*L), (int)A.equal(*L, *o));
+  bool bad = !okl || t != t2 || (A.ok(*o) && !A.ok(*L)) || !A.equal(*L, *o);
+  if (RK.count("next_op")) {
+    Step st;
+    if (parse_step(A, RK["next_op"], st)) {
+      std::unique_ptr<T> x(build(A, h));
+      std::string r1 = apply_mut(A, *x, st), r2 = apply_mut(A, *L, st);
+      bool eq = A.equal(*x, *L);
+      printf("next operation %s\n  on the original: '%s' -> %s\n  on the loaded:   '%s' -> %s\n  %s\n", RK["next_op"].c_str(), r1.c_str(), A.print(*x).substr(0, 300).c_str(),
+             r2.c_str(), A.print(*L).substr(0, 300).c_str(), (r1 == r2 && eq) ? "AGREE" : "DISAGREE");
+      if (r1 != r2 || !eq) bad = true;
+    }
+  }
+  REPLAY_RC = bad ? 1 : 0;
+}
+
 template <class T>
 static void run_class(const ClassAdapter<T>& A, int depth) {
+  if (REPLAY) { replay_class(A); return; }
   double t0 = now_s();
   long long bfs_trans = 0;
   std::vector<Hist> states = explore<T>(A, depth - 1, ARGS,
@@ -148,6 +201,7 @@ int main(int argc, char** argv) {
   int depth = atoi(ARGS.opt("--depth", ARGS.thorough() ? "4" : "3").c_str());
   double t0 = now_s();
   limit_memory(8ULL << 30);
+  if (!ARGS.replay.empty()) { REPLAY = true; load_replay(); }
 #if VF_GROUP == 1
   run_class(polyhedron_adapter<PPL::C_Polyhedron>("C_Polyhedron"), depth);
   run_class(polyhedron_adapter<PPL::NNC_Polyhedron>("NNC_Polyhedron"), depth);
@@ -174,6 +228,7 @@ int main(int argc, char** argv) {
 #else
 #error "VF_GROUP not set"
 #endif
+  if (REPLAY) return REPLAY_RC;
   J extra; extra.arr("classes", PER_CLASS).num("lookahead_depth", depth).num("operations_crashing_on_the_original_skipped", counter(CNT_USER)).num("states_whose_original_fails_OK_skipped", counter(CNT_USER + 1));
   J st; st.str("t", "stats").num("states", TOTAL_STATES).num("transitions", TOTAL_TRANS).num("traces_validated_against_impl", TOTAL_TRANS)
     .boolean("exhaustive", ALL_COMPLETE).str("bound", "histories of depth " + std::to_string(depth - 1) + " (dedup on dump) + one-step look-ahead with every operation")
